@@ -183,6 +183,9 @@ impl Scenario for C05 {
         for token in 0..2u8 {
             v.push(Act::Out { token, sender: 0, amt: Amt::One, trusted_dest: false, data: false, gas: 0, auth: true, gas_tok: 2 });
             v.push(Act::Out { token, sender: 0, amt: Amt::One, trusted_dest: true, data: true, gas: 0, auth: true, gas_tok: 2 });
+            // a transfer that carries data still has to move a positive amount
+            v.push(Act::Out { token, sender: 0, amt: Amt::Zero, trusted_dest: true, data: true, gas: 0, auth: true, gas_tok: 2 });
+            v.push(Act::Out { token, sender: 0, amt: Amt::Neg, trusted_dest: true, data: true, gas: 0, auth: true, gas_tok: 2 });
             for gas in 1..4u8 {
                 v.push(Act::Out { token, sender: 0, amt: Amt::One, trusted_dest: true, data: false, gas, auth: true, gas_tok: 2 });
             }
